@@ -540,6 +540,9 @@ func findParamLen(s string, segment *routeSegment) int {
 	}
 
 	if segment.Length != 0 && len(s) >= segment.Length {
+		if !segment.IsGreedy && strings.IndexByte(s[:segment.Length], slashDelimiter) != -1 {
+			return 0
+		}
 		return segment.Length
 	} else if segment.IsGreedy {
 		// Search the parameters until the next constant part
@@ -552,6 +555,9 @@ func findParamLen(s string, segment *routeSegment) int {
 
 	if len(segment.ComparePart) == 1 {
 		if constPosition := strings.IndexByte(s, segment.ComparePart[0]); constPosition != -1 {
+			if !segment.IsGreedy && strings.IndexByte(s[:constPosition], slashDelimiter) != -1 {
+				return 0
+			}
 			return constPosition
 		}
 	} else if constPosition := strings.Index(s, segment.ComparePart); constPosition != -1 {
